@@ -158,6 +158,9 @@ func (l *Layout) cells(t types.Type) int {
 func (l *Layout) cells0(t types.Type) int {
 	switch u := t.Underlying().(type) {
 	case *types.Basic:
+		if u.Kind() == types.Invalid {
+			return 0 // unused component of a range/next tuple
+		}
 		basicSort(u)
 		return 1
 	case *types.Pointer:
@@ -215,7 +218,9 @@ func (l *Layout) leafSortsInto(t types.Type, out *[]string) {
 	}
 	switch u := t.Underlying().(type) {
 	case *types.Basic:
-		*out = append(*out, basicSort(u))
+		if u.Kind() != types.Invalid {
+			*out = append(*out, basicSort(u))
+		}
 	case *types.Pointer:
 		*out = append(*out, SInt, SBV64, SBV64)
 	case *types.Slice:
